@@ -223,7 +223,12 @@ func GetExecutable(c *Context, l *Logger, hash string) ([]byte, error) {
 		l.Debug(":card_file_box: Found data source hash: %s in cache file", hash)
 	}
 
-	l.Debug(":balloon: Received data source hash: %s content: %q", hash, resValue[:32])
+	// log at most the first 32 bytes; an executable may be shorter than that
+	preview := resValue
+	if len(preview) > 32 {
+		preview = preview[:32]
+	}
+	l.Debug(":balloon: Received data source hash: %s content: %q", hash, preview)
 	return resValue, nil
 }
 
